@@ -640,6 +640,27 @@ func checkRequirement(c *Ctx, w *World, s bceSite, req string) (bool, string) {
 				if tv, ok := info.Types[a.Rhs[0]]; ok && tv.Value != nil && tv.Value.ExactString() == "-1" {
 					continue
 				}
+				// = slices.IndexFunc(S, …) / slices.Index(S, …) on the very slice that is indexed (-1 or a valid index, A4),
+				// with no assignment to S between the search and the use
+				if sc, ok := unparen(a.Rhs[0]).(*ast.CallExpr); ok && len(sc.Args) == 2 {
+					if callee := calleeOf(info, sc); callee != nil && (funcFullName(callee) == "slices.IndexFunc" || funcFullName(callee) == "slices.Index") && exprStr(sc.Args[0]) == exprStr(ix.X) {
+						clean := true
+						ast.Inspect(w.rootOf(s.Fn).Node(), func(n ast.Node) bool {
+							if as2, ok := n.(*ast.AssignStmt); ok && as2.Pos() > a.End() && as2.End() <= ix.Pos() {
+								for _, l := range as2.Lhs {
+									if exprStr(l) == exprStr(ix.X) {
+										clean = false
+									}
+								}
+							}
+							return true
+						})
+						if clean {
+							continue
+						}
+						return false, exprStr(ix.X) + " is reassigned between the search and the use of the index"
+					}
+				}
 				// = range key of a loop over the same slice
 				rid := identOf(a.Rhs[0])
 				okKey := false
